@@ -1,3 +1,4 @@
+import TemplVerif.Generated.Skeletons
 import TemplVerif.Model.Pos
 import TemplVerif.Proofs.Pos
 /-
@@ -30,5 +31,35 @@ theorem C06_walk_consistent (S : Bytes) (p : Pos) (v : Bytes) (hp : positionAt S
 
 /-- Non-vacuity: a two-line source with a multi-byte character before the position. -/
 example : positionAt [195, 169, 10, 97, 98] 4 = ⟨4, 1, 1⟩ ∧ rangeFaithful [195, 169, 10, 97, 98] [97, 98] ⟨3, 1, 0⟩ ⟨5, 1, 2⟩ = true := by decide
+
+-- BEGIN transcription pins (written by tools/mkpins.py)
+/-- T1, transcription pins: the control structure and calls (extract/skeleton.go) of the functions whose models
+    were written by hand are the ones the models were transcribed from:
+      parser/v2/goexpression/parse.go Case
+      parser/v2/goexpression/parse.go Expression
+      parser/v2/goexpression/parse.go For
+      parser/v2/goexpression/parse.go Func
+      parser/v2/goexpression/parse.go If
+      parser/v2/goexpression/parse.go SliceArgs
+      parser/v2/goexpression/parse.go Switch
+      parser/v2/goexpression/parse.go TemplExpression
+      parser/v2/goexpression/parse.go extract
+      parser/v2/goexpression/parse.go inspectFirstNode
+      parser/v2/goexpression/parse.go latestEnd
+    A change of what one of them calls or how it branches breaks this theorem; the check then searches for a
+    failing input and reports either that or `no-failing-input-found`. -/
+theorem C06_transcription_pinned :
+    Generated.skel_goexpr_Case = 2955674906157066679 ∧
+    Generated.skel_goexpr_Expression = 449158004508312845 ∧
+    Generated.skel_goexpr_For = 8530175418073697186 ∧
+    Generated.skel_goexpr_Func = 4044167872632773897 ∧
+    Generated.skel_goexpr_If = 9641853314815885700 ∧
+    Generated.skel_goexpr_SliceArgs = 3087669176266588865 ∧
+    Generated.skel_goexpr_Switch = 14403750837434080194 ∧
+    Generated.skel_goexpr_TemplExpression = 10106973490070043467 ∧
+    Generated.skel_goexpr_extract = 12086399404637510207 ∧
+    Generated.skel_goexpr_inspectFirstNode = 7620468491175133498 ∧
+    Generated.skel_goexpr_latestEnd = 14364505304721028528 := by decide
+-- END transcription pins
 
 end TemplVerif.Props.C06
